@@ -4,7 +4,7 @@ From Coq Require Import List NArith ZArith Bool.
 Import ListNotations.
 From RV Require Import Base.Str Base.PathLex Path.Clean Path.CleanSpec Path.Relative Path.Helpers Path.HelpersFacts Core.Iter File.MemFile Path.Expand Path.Abs Xdg.Dirs Chmod.Sym.
 From stdpp Require gmap.
-From RV Require Import Memfs.State Memfs.Ops Memfs.Step Memfs.Wf Memfs.WfB.
+From RV Require Import Memfs.State Memfs.Ops Memfs.Step Memfs.Wf Memfs.WfB Memfs.Handles Macros.Asserts.
 
 Definition api_components := components.
 Definition api_push := push.
@@ -139,3 +139,19 @@ Definition api_mfs_of_lists (cwd root : list (list N)) (ents : list (list (list 
 Definition api_mk_entry := mkEntry.
 Definition api_set_of_list (l : list (list N)) : gmap.gset (list N) := base.list_to_set l.
 Definition api_rpath_of_string (s : list N) : list (list N) := List.rev (Ops.names_of s).
+
+(* ---- handles inside histories ---- *)
+Definition api_h_init := h_init.
+Definition api_hstep (e : list (list N * list N)) (st : hstate) (o : hop) := hstep (env_lookup e) st o.
+
+(* ---- C20: the assert_vfs_* macros over the mirror ---- *)
+Definition api_macro (e : list (list N * list N)) (m : mfs) (name : N) (a b : list N) (mode : N) : outcome (mfs * verdict) :=
+  let env := env_lookup e in
+  match name with
+  | 0 => Done (a_exists env m a) | 1 => Done (a_no_exists env m a) | 2 => Done (a_is_dir env m a) | 3 => Done (a_no_dir env m a)
+  | 4 => Done (a_is_file env m a) | 5 => Done (a_no_file env m a) | 6 => Done (a_is_symlink env m a) | 7 => Done (a_no_symlink env m a)
+  | 8 => Done (a_read_all env m a b) | 9 => Done (a_readlink env m a b) | 10 => Done (a_readlink_abs env m a b)
+  | 11 => Done (a_mkdir_p env m a) | 12 => Done (a_mkdir_m env m a mode) | 13 => Done (a_mkfile env m a)
+  | 14 => Done (a_write_all env m a b) | 15 => Done (a_symlink env m a b) | 16 => Done (a_remove env m a)
+  | _ => a_remove_all env m a
+  end%N.
